@@ -85,6 +85,10 @@ class ConnectStatesThroughControlFlowPattern(RewritePattern):
         _weave_states_in_region(func_op, {}, rewriter)
 
 
+def find_all_acc_names_in_region_of(op: Operation) -> set[str]:
+    return {name for region in op.regions for name in find_all_acc_names_in_region(region)}
+
+
 def _weave_states_in_region(
     container: Region | Operation, state: dict[str, SSAValue], rewriter: PatternRewriter
 ) -> dict[str, SSAValue]:
@@ -138,8 +142,14 @@ def _weave_states_in_region(
                     if_state = _weave_states_in_region(op.true_region, state.copy(), rewriter)
                     else_state = _weave_states_in_region(op.false_region, state.copy(), rewriter)
 
+                    # a state that is invalidated in one of the branches (e.g. by a call) is not
+                    # known after the if anymore
+                    invalidated = [k for k in state if k not in if_state or k not in else_state]
+
                     # calculate the delta:
                     delta = calc_if_state_delta(state, if_state, else_state)
+                    for k in invalidated:
+                        del state[k]
                     # no delta = nothing to do
                     if not delta:
                         continue
@@ -187,6 +197,10 @@ def _weave_states_in_region(
                     # check which states got new uses:
                     # no state change in loop => nothing to do
                     if not updated_accelerators:
+                        # unless the loop body may change the accelerator state behind our back
+                        if has_accfg_effects(op):
+                            _weave_states_in_region(op.body, dict(), rewriter)
+                            state.clear()
                         continue
 
                     # insert empty setup ops for all setups that don't have a state before the loop
@@ -219,6 +233,16 @@ def _weave_states_in_region(
                     # weave vals with input states
                     after_for_state = _weave_states_in_region(op.body, inner_state, rewriter)
 
+                    # yield an empty (nothing known) state for accelerators whose state was
+                    # invalidated inside the loop body
+                    yield_op = op.body.block.last_op
+                    assert isinstance(yield_op, scf.YieldOp)
+                    for acc_name in updated_accelerators:
+                        if acc_name not in after_for_state:
+                            empty_setup = accfg.SetupOp([], [], acc_name)
+                            rewriter.insert_op(empty_setup, InsertPoint.before(yield_op))
+                            after_for_state[acc_name] = empty_setup.out_state
+
                     # get a list of all initial states of accelerators that were changed int the loop.
                     input_states: list[SSAValue] = [
                         state[acc_name] for acc_name in updated_accelerators if state[acc_name] not in op.operands
@@ -244,6 +268,10 @@ def _weave_states_in_region(
                         op.results = SSAValues((*op.results, new_result))
 
                     # update states
+                    loop_has_effects = has_accfg_effects(op)
+                    if loop_has_effects:
+                        # accelerators that are not carried through the loop are unknown afterwards
+                        state.clear()
                     for result in op.results:
                         if isinstance(result.type, accfg.StateType):
                             # update the state to reflect this
@@ -251,6 +279,11 @@ def _weave_states_in_region(
                 # any other op that contains ops:
                 elif op.regions:
                     _weave_states_in_region(op, dict(), rewriter)
+                    # we don't know how often the contained ops run: forget what they may change
+                    if has_accfg_effects(op):
+                        state.clear()
+                    for acc_name in find_all_acc_names_in_region_of(op):
+                        state.pop(acc_name, None)
                 # Check if the op has effects on accfg state
                 elif has_accfg_effects(op):
                     state.clear()
